@@ -1,16 +1,19 @@
 // C13: desugaring extended notation preserves the language.
 //
 // E: one nonterminal S whose rule body is every extended-notation expression of a bounded size over
-//    the leaves {ta, tb, X, set(ta | tb), set(~ta), (?= X)} (X: tc | tc X) and the operators e?,
-//    (e | e), e e, e*, e+, (e separator ta)+, (e separator ta)*; a second input Z (declared after S,
-//    so that nonterminals extracted from S shift it) reuses S and a list S may also extract.
-//    Layer "tm": the text goes through the real compiler.Compile; the plain rules are read from
-//    grammar.Parser.Rules (LHS/RHS only, state markers skipped). Layer "model": the same expression
-//    is built as a syntax.Model in Go with every subset of its lists flagged RightRecursive (the tm
-//    front end never sets that flag) and run through syntax.Expand + syntax.ResolveSets.
+//
+//	the leaves {ta, tb, X, set(ta | tb), set(~ta), (?= X)} (X: tc | tc X) and the operators e?,
+//	(e | e), e e, e*, e+, (e separator ta)+, (e separator ta)*; a second input Z (declared after S,
+//	so that nonterminals extracted from S shift it) reuses S and a list S may also extract.
+//	Layer "tm": the text goes through the real compiler.Compile; the plain rules are read from
+//	grammar.Parser.Rules (LHS/RHS only, state markers skipped). Layer "model": the same expression
+//	is built as a syntax.Model in Go with every subset of its lists flagged RightRecursive (the tm
+//	front end never sets that flag) and run through syntax.Expand + syntax.ResolveSets.
+//
 // O: the language of the extended expression by structural recursion truncated at L=6 (sets = choice
-//    of their terminals, lookahead marker = ε) versus the bounded language of the plain rules
-//    (extsem.PlainLangs; cross-checked against cfgoracle.Lang for the small languages).
+//
+//	of their terminals, lookahead marker = ε) versus the bounded language of the plain rules
+//	(extsem.PlainLangs; cross-checked against cfgoracle.Lang for the small languages).
 //
 // Conflicts are irrelevant: compiler.Compile returns the grammar together with conflict errors and
 // Parser.Rules is filled before lalr.Compile runs.
@@ -20,9 +23,9 @@ import (
 	"context"
 	"encoding/json"
 	"fmt"
-	"io"
 	"log"
 	"os"
+	"runtime"
 	"runtime/pprof"
 	"sort"
 	"strings"
@@ -577,6 +580,9 @@ func check(cs *cas) (res result) {
 	}
 	if gerr != nil {
 		res.key = site + ":panic:" + core.PanicSite(gerr)
+		if m := fatalMessage(gerr); m != "" {
+			res.key = site + ":fatal:" + m
+		}
 		res.what = fmt.Sprintf("%s: %v", e, gerr)
 		return
 	}
@@ -674,8 +680,54 @@ type level struct {
 
 func main() { core.Main("C13", "exploration", run, replay, nil) }
 
+// calmDown lowers GOMAXPROCS on a heavily loaded machine: 16 busy threads competing with hundreds of
+// other runnable processes spend most of their time in preemption and GC hand-offs.
+// fatalTrap turns log.Fatal inside the code under test into a panic that core.Guard recovers: the
+// logger writes the message before it calls os.Exit, so a writer that panics keeps the process (and
+// the enumeration) alive. Expansion warnings (log.Printf) pass through silently.
+type fatalTrap struct{}
+
+func (fatalTrap) Write(p []byte) (int, error) {
+	if strings.Contains(string(p), "WARNING") {
+		return len(p), nil
+	}
+	panic("log.Fatal: " + strings.TrimSpace(string(p)))
+}
+
+func trapFatal() {
+	log.SetFlags(0)
+	log.SetOutput(fatalTrap{})
+}
+
+// fatalMessage extracts the log.Fatal message from a Guard error ("" if it is an ordinary panic).
+func fatalMessage(err error) string {
+	s := err.Error()
+	i := strings.Index(s, "log.Fatal: ")
+	if i < 0 {
+		return ""
+	}
+	s = s[i+len("log.Fatal: "):]
+	if j := strings.IndexByte(s, '\n'); j >= 0 {
+		s = s[:j]
+	}
+	return s
+}
+
+func calmDown() {
+	data, err := os.ReadFile("/proc/loadavg")
+	if err != nil {
+		return
+	}
+	var load float64
+	fmt.Sscanf(string(data), "%f", &load)
+	if load > 32 {
+		runtime.GOMAXPROCS(4)
+	}
+}
+
 func run(c *core.Ctx) {
-	log.SetOutput(io.Discard) // expansion warnings
+	trapFatal()
+	calmDown()
 	if pf := os.Getenv("C13_PROF"); pf != "" {
 		f, _ := os.Create(pf)
 		pprof.StartCPUProfile(f)
@@ -722,7 +774,7 @@ func run(c *core.Ctx) {
 		}}
 	}
 	lab2 := [][]string{{"a", "a"}, {"a", "X"}, {"la", "b"}, {"setab", "setna"}}
-	lab3 := [][]string{{"a", "a", "la"}, {"X", "setna", "b"}}
+	lab3 := [][]string{{"a", "a", "la"}}
 	lab4 := [][]string{{"a", "la", "a", "X"}}
 	levels = append(levels, labeled(2, lab2, "ones"), labeled(3, lab3, "ones"), labeled(4, lab4, "none"))
 	if !c.Quick() {
@@ -841,7 +893,7 @@ func run(c *core.Ctx) {
 }
 
 func replay(c *core.Ctx, raw json.RawMessage) error {
-	log.SetOutput(io.Discard)
+	trapFatal()
 	var cs cas
 	if err := json.Unmarshal(raw, &cs); err != nil {
 		return err
